@@ -3,6 +3,9 @@ use crate::Node;
 use by_address::ByAddress;
 use logaddexp::LogAddExp;
 use portable_atomic::AtomicF64;
+#[cfg(erikbrinkman_cfr_verif)]
+use crate::verif::thread_rng;
+#[cfg(not(erikbrinkman_cfr_verif))]
 use rand::thread_rng;
 use rand_distr::{Distribution, WeightedAliasIndex};
 use std::collections::HashMap;
@@ -14,6 +17,8 @@ use std::slice;
 pub struct SampledChance {
     index: WeightedAliasIndex<f64>,
     cached: usize,
+    #[cfg(erikbrinkman_cfr_verif)]
+    verif: crate::verif::Site,
 }
 
 impl SampledChance {
@@ -22,6 +27,8 @@ impl SampledChance {
         SampledChance {
             index: WeightedAliasIndex::new(probs.to_vec()).unwrap(),
             cached: 0,
+            #[cfg(erikbrinkman_cfr_verif)]
+            verif: crate::verif::Site::new(crate::verif::Kind::Chance, Some(probs)),
         }
     }
 
@@ -30,7 +37,11 @@ impl SampledChance {
     /// This will return the same value on successive calls until reset is called
     pub fn sample(&mut self) -> usize {
         if self.cached == 0 {
+            #[cfg(erikbrinkman_cfr_verif)]
+            self.verif.before_draw(None);
             let res = self.index.sample(&mut thread_rng());
+            #[cfg(erikbrinkman_cfr_verif)]
+            self.verif.after_draw(None, res);
             self.cached = res + 1;
             res
         } else {
@@ -40,6 +51,8 @@ impl SampledChance {
 
     /// Reset the infoset allowing different samples
     pub fn reset(&mut self) {
+        #[cfg(erikbrinkman_cfr_verif)]
+        self.verif.next_pass();
         self.cached = 0;
     }
 }
